@@ -67,9 +67,13 @@ fn gen_wops(r: &mut Rng) -> Vec<(Vec<u8>, WResp)> {
                 _ => WResp::Ready(usize::MAX),
             };
             let acc = match &resp { WResp::Ready(k) => (*k).min(rest.len()), _ => 0 };
-            let after_pending_other_buffer = matches!(resp, WResp::Pending) && r.chance(1, 5);
+            let after_pending_other_buffer = matches!(resp, WResp::Pending) && r.chance(1, 3);
             ops.push((rest.clone(), resp));
-            if after_pending_other_buffer { let k = 1 + r.below(20) as usize; rest = r.bytes(k); }
+            if after_pending_other_buffer {
+                // an abandoned write: the caller comes back with other bytes, often of the same length
+                let k = if r.chance(2, 3) { rest.len().max(1) } else { 1 + r.below(20) as usize };
+                rest = r.bytes(k);
+            }
             else { rest = rest[acc..].to_vec(); }
             if rest.is_empty() || guard > 12 { break; }
         }
@@ -108,7 +112,8 @@ fn main() {
     }
     // the fixed witnesses of the repaired defect: a partial accept / a Pending in the middle of a buffer
     for ops in [vec![(vec![1u8, 2], WResp::Ready(1)), (vec![2u8], WResp::Ready(1))],
-                vec![(vec![9u8; 20], WResp::Pending), (vec![9u8; 20], WResp::Ready(usize::MAX))]] {
+                vec![(vec![9u8; 20], WResp::Pending), (vec![9u8; 20], WResp::Ready(usize::MAX))],
+                vec![(vec![1u8; 12], WResp::Pending), (vec![2u8; 12], WResp::Ready(usize::MAX)), (vec![3u8; 12], WResp::Ready(usize::MAX))]] {
         let key = vec![0x42u8; 16];
         let wire_h = std::sync::Arc::new(std::sync::Mutex::new(Vec::<u8>::new()));
         let mock = Mock { wscript: ops.iter().map(|o| o.1.clone()).collect(), rscript: VecDeque::new(), wire: wire_h.clone() };
